@@ -77,12 +77,20 @@ def find_assign_in(fn: ast.FunctionDef, name: str, nth: int = 0) -> ast.expr:
     return hits[nth][1]
 
 
-def define(lean_name: str, e: ast.expr, ret: str = "Rat") -> str:
+def define(lean_name: str, e: ast.expr, ret: str = "Rat", params=None) -> str:
+    """`params`: the declared parameter list (names as in the source, trailing `_` dropped).  The
+    translated body refers to them by name, so a change of the source formula changes the Lean body
+    (and not merely the order of anonymous parameters)."""
     tr = ExprTr()
     body = tr.expr(e)
-    params = " ".join(f"({v} : Rat)" for v in tr.vars)
-    doc = "/-- parameters in source order: " + ", ".join(tr.vars) + " -/\n"
-    return doc + f"def {lean_name} {params} : {ret} :=\n  {body}\n\n"
+    if params is None:
+        params = list(tr.vars)
+    extra = [v for v in tr.vars if v not in params]
+    if extra:
+        raise P.Untranslatable(f"{lean_name}: the source now uses {extra}, not among the declared {params}")
+    ps = " ".join(f"({v} : Rat)" for v in params)
+    doc = "/-- parameters: " + ", ".join(params) + " -/\n"
+    return doc + f"def {lean_name} {ps} : {ret} :=\n  {body}\n\n"
 
 
 def generate(lean_dir: str):
@@ -119,33 +127,34 @@ def generate(lean_dir: str):
 
     # positioning arithmetic
     td = P.find_function(interp, "PDFPageInterpreter.do_Td")
-    out.append(define("td_e_new", find_assign_in(td, "e_new")))
-    out.append(define("td_f_new", find_assign_in(td, "f_new")))
+    out.append(define("td_e_new", find_assign_in(td, "e_new"), params=["tx", "ty", "a", "b", "c", "d", "e", "f"]))
+    out.append(define("td_f_new", find_assign_in(td, "f_new"), params=["tx", "ty", "a", "b", "c", "d", "e", "f"]))
     tD = P.find_function(interp, "PDFPageInterpreter.do_TD")
-    out.append(define("tD_e_new", find_assign_in(tD, "e_new")))
-    out.append(define("tD_f_new", find_assign_in(tD, "f_new")))
-    out.append(define("tD_leading", find_assign_in(tD, "leading")))
+    out.append(define("tD_e_new", find_assign_in(tD, "e_new"), params=["tx", "ty", "a", "b", "c", "d", "e", "f"]))
+    out.append(define("tD_f_new", find_assign_in(tD, "f_new"), params=["tx", "ty", "a", "b", "c", "d", "e", "f"]))
+    out.append(define("tD_leading", find_assign_in(tD, "leading"), params=["tx", "ty"]))
     ta = P.find_function(interp, "PDFPageInterpreter.do_T_a")
     m = find_assign_in(ta, "matrix", nth=0)
     if not (isinstance(m, ast.Tuple) and len(m.elts) == 6):
         raise P.Untranslatable("do_T_a does not assign a 6-tuple to textstate.matrix")
-    out.append(define("tstar_matrix", m, "Matrix"))
+    out.append(define("tstar_matrix", m, "Matrix", params=["a", "b", "c", "d", "leading", "e", "f"]))
     tl = P.find_function(interp, "PDFPageInterpreter.do_TL")
-    out.append(define("tl_leading", find_assign_in(tl, "leading")))
+    out.append(define("tl_leading", find_assign_in(tl, "leading"), params=["leading_f"]))
 
     dev = P.parse_file("pdfminer/pdfdevice.py")
     rs = P.find_function(dev, "PDFTextDevice.render_string")
-    for nm in ("scaling", "charspace", "wordspace", "dxscale"):
-        out.append(define("rs_" + nm, find_assign_in(rs, nm)))
+    for nm, ps in (("scaling", ["scaling"]), ("charspace", ["charspace", "scaling"]),
+                   ("wordspace", ["wordspace", "scaling"]), ("dxscale", ["fontsize", "scaling"])):
+        out.append(define("rs_" + nm, find_assign_in(rs, nm), params=ps))
 
     lay = P.parse_file("pdfminer/layout.py")
     lc = P.find_function(lay, "LTChar.__init__")
-    out.append(define("ltchar_adv", find_assign_in(lc, "adv")))
-    out.append(define("ltchar_descent", find_assign_in(lc, "descent")))
+    out.append(define("ltchar_adv", find_assign_in(lc, "adv"), params=["textwidth", "fontsize", "scaling"]))
+    out.append(define("ltchar_descent", find_assign_in(lc, "descent"), params=["get_descent", "fontsize"]))
     bb = find_assign_in(lc, "bbox", nth=1)     # 0: vertical writing, 1: horizontal
     if not (isinstance(bb, ast.Tuple) and len(bb.elts) == 4):
         raise P.Untranslatable("LTChar.__init__: horizontal bbox is not a 4-tuple")
-    out.append(define("ltchar_bbox_h", bb, "Rect"))
+    out.append(define("ltchar_bbox_h", bb, "Rect", params=["descent", "rise", "adv", "fontsize"]))
 
     fnt = P.parse_file("pdfminer/pdffont.py")
     init = P.find_function(fnt, "PDFFont.__init__")
@@ -161,7 +170,7 @@ def generate(lean_dir: str):
     out.append(define("char_width_scaled", rets[0]))
     gd = P.find_function(fnt, "PDFFont.get_descent")
     rets = [n.value for n in ast.walk(gd) if isinstance(n, ast.Return) and n.value is not None]
-    out.append(define("font_get_descent", rets[0]))
+    out.append(define("font_get_descent", rets[0], params=["descent", "vscale"]))
 
     out.append("end PdfVerif.Gen.Interp\n")
     path = os.path.join(lean_dir, "PdfVerif", "Gen", "Interp.lean")
